@@ -386,3 +386,278 @@ if __name__ == "__main__":
     docs = thrift_sem()
     s = write_corpus(docs, sys.argv[1])
     print(sum(len(d["types"]) for d in s["docs"]), "types in", len(s["docs"]), "documents")
+
+
+# ---- naming-stress / structural corpus for C14 and C17 (no schema needed: only compiled) -------------
+RUST_KEYWORDS = ["as", "use", "break", "continue", "crate", "else", "if", "extern", "fn", "for", "impl", "in", "let", "loop",
+                 "match", "mod", "move", "mut", "pub", "ref", "return", "Self", "self", "static", "super", "trait", "type",
+                 "unsafe", "where", "while", "abstract", "alignof", "become", "box", "do", "final", "macro", "offsetof",
+                 "override", "priv", "proc", "pure", "sizeof", "typeof", "unsized", "virtual", "yield", "dyn", "async", "await",
+                 "try", "gen"]
+STD_NAMES = ["Option", "Vec", "String", "Box", "Result", "Default", "Clone", "Debug", "Ok", "Err", "Some", "None", "Bytes", "Arc",
+             "Message", "FastStr", "Hash", "Eq", "Ord", "Iterator", "Send", "Sync", "Copy", "Sized", "Into", "From"]
+
+
+class RawDoc:
+    """A document given as text (one or more files); label names the construct it exercises."""
+
+    def __init__(self, name, files, main=None, label=None, mode="thrift"):
+        self.name = name
+        self.files = files  # {relative path: text}
+        self.main = main or list(files.keys())[0]
+        self.label = label or name
+        self.mode = mode
+
+
+def chunks(xs, n):
+    return [xs[i:i + n] for i in range(0, len(xs), n)]
+
+
+def thrift_stress():
+    docs = []
+    kws = RUST_KEYWORDS
+    for ci, ch in enumerate(chunks(kws, 9)):
+        # keywords as struct names
+        body = "\n".join("struct %s {\n    1: i32 a,\n}" % k for k in ch)
+        user = "struct UsesThem {\n" + "\n".join("    %d: %s f%d," % (i + 1, k, i) for i, k in enumerate(ch)) + "\n}"
+        svc = "service KwSvc%d {\n" % ci + "\n".join("    %s m%d(1: %s arg),\n" % (k, i, k) for i, k in enumerate(ch)) + "}"
+        docs.append(RawDoc("kw_struct_%d" % ci, {"kw_struct_%d.thrift" % ci: body + "\n" + user + "\n" + svc + "\n"}, label="keyword-as-struct-name"))
+        # keywords as field names / argument names / method names
+        body = "struct KwFields {\n" + "\n".join("    %d: optional string %s," % (i + 1, k) for i, k in enumerate(ch)) + "\n}\n"
+        body += "struct KwFieldsReq {\n" + "\n".join("    %d: required i64 %s = %d," % (i + 1, k, i) for i, k in enumerate(ch)) + "\n}\n"
+        body += "union KwUnion {\n" + "\n".join("    %d: i32 %s," % (i + 1, k) for i, k in enumerate(ch)) + "\n}\n"
+        body += "service KwMethods {\n" + "\n".join("    i32 %s(1: i32 %s, 2: KwFields x),\n" % (k, k) for k in ch) + "}\n"
+        docs.append(RawDoc("kw_field_%d" % ci, {"kw_field_%d.thrift" % ci: body}, label="keyword-as-field/arg/method-name"))
+        # keywords as enum names / variants / typedef / const names
+        body = "enum KwVariants {\n" + "\n".join("    %s = %d," % (k, i) for i, k in enumerate(ch)) + "\n}\n"
+        body += "\n".join("enum %s {\n    A = 1,\n    %s = 2,\n}" % ("E_" + k, k) for k in ch[:3]) + "\n"
+        body += "\n".join("typedef i32 %s" % ("T_" + k) for k in ch) + "\n"
+        body += "\n".join("const i32 %s = %d" % (k, i) for i, k in enumerate(ch)) + "\n"
+        body += "struct UsesEnum {\n    1: KwVariants v = KwVariants.%s,\n    2: optional %s t,\n}\n" % (ch[0], "T_" + ch[1 % len(ch)])
+        body += "service S { UsesEnum get(1: KwVariants v) }\n"
+        docs.append(RawDoc("kw_enum_%d" % ci, {"kw_enum_%d.thrift" % ci: body}, label="keyword-as-enum/variant/typedef/const-name"))
+    for ci, ch in enumerate(chunks(STD_NAMES, 9)):
+        body = "\n".join("struct %s {\n    1: optional string v,\n}" % k for k in ch)
+        body += "\nstruct UsesStd {\n" + "\n".join("    %d: optional %s f%d,\n    %d: list<%s> l%d," % (2 * i + 1, k, i, 2 * i + 2, k, i) for i, k in enumerate(ch)) + "\n}\n"
+        body += "enum StdVariants {\n" + "\n".join("    %s = %d," % (k, i) for i, k in enumerate(ch)) + "\n}\n"
+        body += "union StdUnion {\n" + "\n".join("    %d: %s %s," % (i + 1, k, k.lower() + "_v") for i, k in enumerate(ch)) + "\n}\n"
+        body += "service StdSvc {\n" + "\n".join("    %s get%d(1: %s a) throws (1: %s e),\n" % (k, i, k, ch[0]) for i, k in enumerate(ch[:4])) + "}\n"
+        docs.append(RawDoc("std_names_%d" % ci, {"std_names_%d.thrift" % ci: body}, label="std-prelude-names-as-type/variant-names"))
+    # identifiers that collide after case conversion
+    body = """struct Collide {
+    1: optional i32 fooBar,
+    2: optional i32 foo_bar,
+    3: optional i32 FooBar,
+    4: optional i32 a_b,
+    5: optional i32 aB,
+    6: optional i32 _x,
+    7: optional i32 __y,
+    8: optional i32 x_,
+    9: optional i32 HTTP_CODE,
+    10: optional i32 HTTPCode,
+    11: optional i32 a1,
+    12: optional i32 a_1,
+    13: optional i32 A,
+    14: optional i32 a,
+}
+struct Foo_bar { 1: i32 a }
+struct FooBar { 1: i32 a }
+struct foo_bar { 1: i32 a }
+struct A_B { 1: i32 a }
+struct AB { 1: i32 a }
+struct _Lead { 1: i32 a }
+struct X1 { 1: i32 a }
+struct x1 { 1: i32 a }
+enum CollideEnum {
+    fooBar = 1,
+    foo_bar = 2,
+    FOO_BAR = 3,
+    FooBar = 4,
+}
+union CollideUnion {
+    1: i32 aB,
+    2: i32 a_b,
+    3: i32 AB,
+}
+service CollideSvc {
+    i32 getUser(1: i32 a),
+    i32 get_user(1: i32 a),
+    i32 GetUser(1: i32 a),
+    Foo_bar a(1: FooBar x, 2: foo_bar y, 3: A_B z, 4: AB w),
+}
+"""
+    docs.append(RawDoc("case_collisions", {"case_collisions.thrift": body}, label="names-colliding-after-case-conversion"))
+    # recursion through every construct
+    body = """struct SelfRec { 1: optional SelfRec next, 2: required i32 v }
+struct ListRec { 1: list<ListRec> kids }
+struct SetRecHolder { 1: map<string, SetRecHolder> m, 2: list<map<i32, list<SetRecHolder>>> deep }
+struct MutA { 1: optional MutB b }
+struct MutB { 1: optional MutC c }
+struct MutC { 1: optional MutA a, 2: list<MutB> bs }
+union URec { 2: i32 v, 3: list<URec> us, 4: SUnion s, 5: map<string, URec> m }
+struct SUnion { 1: optional URec u }
+typedef list<TdRec> TdRecList
+struct TdRec { 1: optional TdRecList kids, 2: optional TdAlias alias }
+typedef TdRec TdAlias
+exception ExRec { 1: optional ExRec cause, 2: string msg }
+struct ReqRec { 1: required ReqHolder h }
+struct ReqHolder { 1: list<ReqRec> rs }
+service RecSvc { SelfRec get(1: URec u, 2: TdAlias t) throws (1: ExRec e) }
+"""
+    docs.append(RawDoc("recursion_all", {"recursion_all.thrift": body}, label="recursive-types-through-every-construct"))
+    body = """union UDirect { 1: UDirect u, 2: i32 v }
+struct HoldsU { 1: optional UDirect u }
+service UDirectSvc { HoldsU get(1: UDirect u) }
+"""
+    docs.append(RawDoc("recursion_union_direct", {"recursion_union_direct.thrift": body}, label="union-variant-of-its-own-type"))
+    body = """union UA { 1: UB b, 2: i32 v }
+union UB { 1: UA a, 2: string s }
+service UMutSvc { UA get(1: UB u) }
+"""
+    docs.append(RawDoc("recursion_union_mutual", {"recursion_union_mutual.thrift": body}, label="mutually-recursive-unions"))
+    # constants of every kind
+    body = """enum Color { Red = 1, Green = 2 }
+struct Pt { 1: i32 x, 2: optional string name, 3: list<i32> xs }
+const i8 C_I8 = -8
+const i16 C_I16 = 300
+const i32 C_I32 = 0x7fffffff
+const i64 C_I64 = -9223372036854775807
+const double C_D1 = 1.5
+const double C_D2 = 3
+const double C_D3 = -2e-3
+const bool C_B1 = true
+const bool C_B2 = 0
+const string C_S = "str"
+const binary C_BIN = "bin"
+const Color C_E = Color.Green
+const Color C_E2 = 1
+const list<i32> C_L = [1, 2, 3]
+const list<string> C_LS = ["a", "b"]
+const set<string> C_SET = ["x", "y"]
+const map<string, i32> C_M = {"a": 1, "b": 2}
+const map<i32, list<string>> C_ML = {1: ["x"], 2: []}
+const map<Color, string> C_ME = {Color.Red: "r", Color.Green: "g"}
+const map<string, map<string, i32>> C_MM = {"o": {"i": 1}}
+const Pt C_PT = {"x": 1, "name": "n", "xs": [1, 2]}
+const list<Pt> C_PTS = [{"x": 1}, {"x": 2, "name": "b"}]
+const string C_REF = C_S
+const i32 C_REF2 = C_I32
+struct UsesConsts {
+    1: i32 a = C_I32,
+    2: string s = C_S,
+    3: Color c = C_E,
+    4: list<i32> l = [1, 2],
+    5: map<string, i32> m = {"k": 1},
+    6: optional Pt p = {"x": 1},
+    7: double d = C_D2,
+}
+service ConstSvc { UsesConsts get() }
+"""
+    docs.append(RawDoc("consts_all", {"consts_all.thrift": body}, label="constants-of-every-kind"))
+    body = """const list<list<i32>> C_LL = [[1], [], [2, 3]]
+const list<list<string>> C_LL2 = [["a"], ["b"]]
+service NestedConstSvc { void f() }
+"""
+    docs.append(RawDoc("const_nested_list", {"const_nested_list.thrift": body}, label="constant-list-of-lists"))
+    # multi-file: includes, namespaces, same names in two files, sibling namespaces, service extends across files
+    files = {
+        "multi_main.thrift": """include "multi_a.thrift"
+include "sub/multi_b.thrift"
+include "multi_v1.thrift"
+include "multi_v2.thrift"
+namespace rs app.main
+
+struct Item { 1: i32 id, 2: optional multi_a.Item a_item, 3: optional multi_b.Item b_item }
+struct Uses {
+    1: multi_a.Shared s,
+    2: list<multi_b.Item> items,
+    3: map<string, multi_a.Kind> kinds,
+    4: optional multi_a.Alias alias,
+    5: multi_v2.Model m2,
+    6: optional multi_v1.Model m1,
+    7: multi_a.Kind k = multi_a.Kind.B,
+    8: i32 c = multi_a.A_CONST,
+}
+service MainSvc extends multi_a.BaseSvc {
+    Uses run(1: multi_a.Shared s, 2: multi_b.Item i) throws (1: multi_a.Oops e),
+}
+""",
+        "multi_a.thrift": """include "sub/multi_b.thrift"
+namespace rs app.a.b
+
+enum Kind { A = 1, B = 2 }
+const i32 A_CONST = 5
+typedef list<Shared> Alias
+struct Item { 1: string name }
+struct Shared { 1: optional multi_b.Item inner, 2: Kind kind, 3: optional Item own }
+exception Oops { 1: string why }
+service BaseSvc { Shared base(1: Item i) }
+""",
+        "sub/multi_b.thrift": """namespace rs app.a.c
+
+struct Item { 1: i64 v, 2: optional Item again }
+""",
+        "multi_v1.thrift": """namespace rs api.v1.model
+
+struct Model { 1: i32 a }
+struct Only1 { 1: Model m }
+""",
+        "multi_v2.thrift": """include "multi_v1.thrift"
+namespace rs api.v2.model
+
+struct Model { 1: string b, 2: optional multi_v1.Model old, 3: list<multi_v1.Only1> olds }
+""",
+    }
+    docs.append(RawDoc("multi_file", files, main="multi_main.thrift", label="includes-namespaces-cross-file-references"))
+    # services: oneway, void, extends within the file, many args, no-arg, annotations on methods
+    body = """struct R { 1: i32 a }
+exception E1 { 1: string m }
+exception E2 { 1: i32 c }
+service Base { void ping(), oneway void fire(1: R r), }
+service Mid extends Base { i32 one(1: i32 a), }
+service Top extends Mid {
+    R many(1: i32 a, 2: string b, 3: list<R> c, 4: map<string, R> d, 5: optional bool e, 6: required double f),
+    void thrower() throws (1: E1 a, 2: E2 b),
+    list<map<string, list<R>>> nested(1: set<i32> s),
+    binary raw(1: binary b, 2: uuid u),
+}
+"""
+    docs.append(RawDoc("services_all", {"services_all.thrift": body}, label="services-oneway-void-extends-throws"))
+    # all container nestings to depth 3 over the leaf set (compile only)
+    leaves = ["i32", "string", "bool", "double", "Inner3", "E3"]
+    outer = []
+    for o in ["list", "set", "map"]:
+        for i in ["list", "set", "map"]:
+            for l in leaves:
+                inner = {"list": "list<%s>" % l, "set": "set<%s>" % l, "map": "map<string, %s>" % l}[i]
+                if i == "set" and l in ("Inner3",):
+                    pass
+                if o == "list":
+                    outer.append("list<%s>" % inner)
+                elif o == "set":
+                    if i == "list":
+                        outer.append("set<%s>" % inner)  # Vec is hashable; sets/maps are not
+                else:
+                    outer.append("map<i32, %s>" % inner)
+                    if i == "list":
+                        outer.append("map<%s, i32>" % inner)
+    body = "enum E3 { A = 1 }\nstruct Inner3 { 1: i32 a }\nstruct Deep3 {\n" + "\n".join("    %d: optional %s f%d," % (i + 1, t_, i) for i, t_ in enumerate(outer)) + "\n}\nservice D3 { Deep3 get(1: Deep3 d) }\n"
+    docs.append(RawDoc("containers_depth3", {"containers_depth3.thrift": body}, label="container-nesting-depth-3"))
+    return docs
+
+
+def sem_as_raw():
+    """the semantic corpus as raw documents (for C14/C17)"""
+    out = []
+    for d in thrift_sem():
+        out.append(RawDoc("sem_" + d.name, {d.name + ".thrift": d.text()}, label="semantic:" + d.name))
+    return out
+
+
+def write_raw(docs, outdir):
+    for d in docs:
+        for rel, txt in d.files.items():
+            p = os.path.join(outdir, d.name, rel)
+            os.makedirs(os.path.dirname(p), exist_ok=True)
+            if not os.path.exists(p) or open(p).read() != txt:
+                open(p, "w").write(txt)
